@@ -581,6 +581,9 @@ class Interp:
         if inv is not None:
             return self.for_with_invariant(node, fr, inv, it)
         n = 0
+        from .seq import Chunk
+        if isinstance(it, (list, tuple)) and any(isinstance(e, Chunk) for e in it):
+            raise Unsupported("for loop over a list with a symbolic-length part in %s needs an invariant" % fr.func.qualname)
         for x in self.iterate_lazy(it):
             n += 1
             if n > max(ctx.max_unroll, 300 if is_concrete(it) else 0):
@@ -660,6 +663,8 @@ class Interp:
             ctx.assume(inv.inv(self, fr, i))
             self.assign(node.target, elem(i), fr)
             log = self.start_write_log()
+            ctx.ghost[name + '.exit_index'] = i
+            ctx.ghost[name + '.exit'] = 'break-or-return'
             try:
                 self.exec_block(node.body, fr)
             except _Break:
@@ -672,6 +677,8 @@ class Interp:
             raise PathEnd()
         else:
             end = simp(z3.If(zint(stop) >= zint(start), zint(stop), zint(start)))
+            ctx.ghost[name + '.exit_index'] = end
+            ctx.ghost[name + '.exit'] = 'exhausted'
             ctx.assume(inv.inv(self, fr, end))
             if hasattr(inv, 'at_exit'):
                 inv.at_exit(self, fr, end)
@@ -864,6 +871,8 @@ class Interp:
             if name == '__class__':
                 return o.cls
             raise_py(AttributeError, name)
+        if isinstance(o, tuple) and hasattr(o, '_fields') and name in o._fields:
+            return getattr(o, name)
         if isinstance(o, (SStr, SBytes, Choice, OpaqueVal, str, bytes, bytearray, memoryview, list, dict, tuple,
                           set)) or is_z3(o):
             if isinstance(o, OpaqueVal) and o.extra and name in o.extra:
